@@ -500,7 +500,7 @@ func init() {
 		Profiles: []*Profile{dataProfile("c02-graphs", map[string]int{"unsubscribe": 14, "mutate": 22, "custom": 2, "get": 6, "refburst": 5}), dataProfile("c02-general", nil),
 			func() *Profile {
 				// many paths to the same child: the reference collector's counting
-				p := dataProfile("c02-dense", map[string]int{"gcburst": 10, "subscribe": 22, "unsubscribe": 14, "get": 4, "mutate": 10, "refburst": 4, "custom": 1, "answer": 26, "silent": 0, "sysreset": 1, "qmutate": 0, "qevent": 0, "httpget": 0, "close": 0})
+				p := dataProfile("c02-dense", map[string]int{"gcburst": 10, "getoverlap": 5, "subscribe": 22, "unsubscribe": 14, "get": 4, "mutate": 10, "refburst": 4, "custom": 1, "answer": 26, "silent": 0, "sysreset": 1, "qmutate": 0, "qevent": 0, "httpget": 0, "close": 0})
 				p.Dense, p.MaxConns = true, 2
 				return p
 			}(),
@@ -512,7 +512,7 @@ func init() {
 	register(&SimProp{
 		ID: "C03",
 		Profiles: []*Profile{dataProfile("c03-customs", map[string]int{"qburst": 5, "trigburst": 6, "refburst": 4, "custom": 45, "mutate": 14, "reaccess": 4, "qevent": 2, "sysreset": 4}),
-			dataProfile("c03-refstates", map[string]int{"refburst": 14, "custom": 20, "mutate": 12, "subscribe": 18, "answer": 30})},
+			dataProfile("c03-refstates", map[string]int{"refburst": 14, "getoverlap": 8, "custom": 20, "mutate": 12, "subscribe": 18, "answer": 30})},
 		Config:   graphConfig,
 		Monitors: func() []Monitor { return []Monitor{NewMonC03()} },
 		Trigger:  triggerData,
